@@ -51,8 +51,8 @@ func fixedCases() []Case {
 		// unmarshalAndVerifyData: json.Unmarshal("null", &pointer) leaves a nil pointer; reached on the miner path
 		{S: "d", Kind: "fixed-modify-signers-data-null", Lazy: "modify-signers-data-null-resigned"},
 		// TxPool.addTx formats tx.Amount() in decimal (under the pool lock) for every amount above 500000 LEMO; nothing bounds the size of the number
-		{S: "d", Kind: "fixed-tx-amount-of-1MB", Obj: &Obj{What: "tx", Payload: &Payload{Tree: hugeAmountTx(&Node{B: "6553f418"})}}},
-		{S: "c", Kind: "fixed-tx-amount-of-1MB", Msgs: []Msg{{Code: 0x06, Payload: &Payload{Tree: nL(hugeAmountTx(&Node{NowPlus: &exp600}))}}}},
+		{S: "d", Kind: "fixed-tx-amount-of-4MB", Obj: &Obj{What: "tx", Payload: &Payload{Tree: hugeAmountTx(&Node{B: "6553f418"})}}},
+		{S: "c", Kind: "fixed-tx-amount-of-4MB", Msgs: []Msg{{Code: 0x06, Payload: &Payload{Tree: nL(hugeAmountTx(&Node{NowPlus: &exp600}))}}}},
 		// checkBoxTx again, through the chain entry point
 		{S: "d", Kind: "fixed-box-with-null-sub-tx", Obj: &Obj{What: "tx", Payload: &Payload{Tree: boxTxTreeAt(`{"subTxList":[null]}`, 1700000600)}}},
 	}
@@ -75,8 +75,8 @@ func boxTxTreeAt(doc string, exp uint64) *Node {
 
 var exp600 = int64(600)
 
-// hugeAmountTx is an ordinary transfer whose amount is a 1.1 MB number.
+// hugeAmountTx is an ordinary transfer whose amount is a 4 MB number.
 func hugeAmountTx(exp *Node) *Node {
 	return nL(&Node{}, nU(1), nU(200), &Node{Rnd: 20, Seed: 1}, &Node{}, &Node{Rnd: 20, Seed: 2}, &Node{}, nU(1000000000), nU(100000), &Node{},
-		&Node{Fill: 1100000, Byte: 0xab}, &Node{}, exp, &Node{}, nL(), nL())
+		&Node{Fill: 4000000, Byte: 0xab}, &Node{}, exp, &Node{}, nL(), nL())
 }
